@@ -12,6 +12,7 @@
 //!   `hex <bytes in hex>`                   t0 = literal bytes
 //!   `pack <rb> <lb> <n> (<next> <right>)*n <m> (<char> <entry>)*m`
 //!                                          `Program::pack_entrypoints` alone on a synthetic program
+//!   `sz lh bc ec nw nh nd ni nl nk ne np`   t0 = the all-zero file with these size words (capacity boundaries)
 //!   `tprog <program>`                      t0 = a 256-character font whose lig/kern table is the given TFM-level program
 //!   `norm <program>`                       a hand-built `pl::File` (TFM-level program, unpacked entry points) through the real
 //!                                          LIGTABLE printer (`lower`/`display`) and parser (`from_pl_source_code`)
@@ -1136,6 +1137,55 @@ struct RawView {
     params: Vec<i32>,
 }
 
+/// The file of an `sz` case: the twelve size words as given (lf computed), a header with design size 10pt,
+/// zeros everywhere else (no character exists, entry 0 of every table is 0, no lig/kern word is reachable).
+fn sz_file(a: &[i64]) -> Option<Vec<u8>> {
+    if a.len() < 11 || a.iter().any(|x| *x < 0 || *x > 40_000) {
+        return None;
+    }
+    let a: Vec<usize> = a.iter().map(|x| *x as usize).collect();
+    let (lh, bc, ec) = (a[0], a[1], a[2]);
+    if bc > ec + 1 {
+        return None;
+    }
+    let lf = 6 + lh + (ec + 1 - bc) + a[3..11].iter().sum::<usize>();
+    if lf >= 32768 {
+        return None;
+    }
+    let mut t = vec![0u8; 4 * lf];
+    for (i, v) in [lf].iter().chain(a[..11].iter()).enumerate() {
+        t[2 * i..2 * i + 2].copy_from_slice(&(*v as u16).to_be_bytes());
+    }
+    if lh >= 2 {
+        t[28..32].copy_from_slice(&(10u32 << 20).to_be_bytes());
+    }
+    Some(t)
+}
+
+/// TFtoPL's own acceptance test (TFtoPL.2014.20-21), transcribed from the program text: the file has the
+/// length lf says, no size word has its high bit set, lh >= 2, bc <= ec + 1, ec <= 255, ne <= 256, the four
+/// dimension tables are not empty, and lf is the sum of the parts. Such a file is never refused.
+fn sizes_ok(t: &[u8]) -> bool {
+    if t.len() < 24 {
+        return false;
+    }
+    let w: Vec<usize> = (0..12).map(|i| u16::from_be_bytes([t[2 * i], t[2 * i + 1]]) as usize).collect();
+    if w.iter().any(|x| *x >= 32768) {
+        return false;
+    }
+    let (lf, lh, bc, ec, nw, nh, nd, ni, nl, nk, ne, np) = (w[0], w[1], w[2], w[3], w[4], w[5], w[6], w[7], w[8], w[9], w[10], w[11]);
+    t.len() == 4 * lf
+        && lh >= 2
+        && bc <= ec + 1
+        && ec <= 255
+        && ne <= 256
+        && nw > 0
+        && nh > 0
+        && nd > 0
+        && ni > 0
+        && lf == 6 + lh + (ec + 1 - bc) + nw + nh + nd + ni + nl + nk + ne + np
+}
+
 fn raw_view(t: &[u8]) -> Option<RawView> {
     if t.len() < 24 {
         return None;
@@ -1500,12 +1550,29 @@ impl C11 {
                 out.fail(Kind::ImplPanic, "trip1", format!("panic {}", strip_msg(&p)), format!("tfm_to_pl(t0) panicked: {p}"));
                 return;
             }
-            Ok(Err(_)) => {
-                out.tag("t0:unreadable");
+            Ok(Err(e)) => {
+                // S (TFtoPL.2014.20-21, no /repo code): a file whose twelve size words are consistent is loaded;
+                // everything TFtoPL objects to after that is a message, not a refusal. pltotf's own output and
+                // the files the harness lays out (exactly 256 recipes, 256 widths, lh = 2 ...) are such files.
+                if sizes_ok(t0) {
+                    let kind: String = e.chars().take_while(|c| c.is_ascii_alphanumeric()).collect();
+                    out.tag("t0:rejected-although-size-words-consistent");
+                    out.fail(
+                        Kind::ImplVsSpec,
+                        "trip1",
+                        format!("tfm_to_pl refuses a .tfm whose size words are consistent: {kind}"),
+                        format!("error: {e}\nsize words: {:?}", (0..12).map(|i| u16::from_be_bytes([t0[2 * i], t0[2 * i + 1]])).collect::<Vec<_>>()),
+                    );
+                } else {
+                    out.tag("t0:unreadable");
+                }
                 return;
             }
             Ok(Ok(x)) => x,
         };
+        if sizes_ok(t0) {
+            out.tag("t0:size-words-consistent");
+        }
         if !m0.is_empty() {
             let first = m0[0].lines().find(|l| !l.trim().is_empty()).unwrap_or("").to_string();
             let sig: String = first.chars().filter(|c| !c.is_ascii_digit() && *c != '\'').take(60).collect();
@@ -1636,7 +1703,22 @@ impl C11 {
                 let lh = u16::from_be_bytes([t[2], t[3]]) as usize;
                 t.get(24..24 + 4 * lh).map(|x| x.to_vec())
             };
-            if let (Some(h0), Some(h1)) = (hdr(t0), hdr(&t1)) {
+            if let (Some(mut h0), Some(h1)) = (hdr(t0), hdr(&t1)) {
+                if h0.len() > 1024 {
+                    // known finding C11-h: a property list has no way to state header words 256.. ; the model's
+                    // quantifier is lh <= 256, and it is asked about the part of the header that can be stated
+                    out.tag("header:lh>256 (words 256.. cannot be stated, C11-h)");
+                    h0.truncate(1024);
+                }
+                // Outside rawOk (shape of C11-b / C11-f: the trip changes the lig/kern program, reported by the
+                // lig/kern and seven-bit streams) the flag byte is the safety of the font t1 really has.
+                let safe = match (&rv1, self.sig_suffix.is_empty()) {
+                    (Some(v1), false) => {
+                        out.tag("header:flag-from-the-font-of-t1 (t0 outside rawOk)");
+                        lean_safe7(v1, drv)
+                    }
+                    _ => safe,
+                };
                 let reply = drv.ask(&format!("header {} {}", safe as u8, join(&h0)));
                 if reply == "notok" {
                     out.tag("header:outside-model");
@@ -1723,10 +1805,11 @@ impl C11 {
                 }
                 if v0.extra != v1.extra {
                     let i = (0..v0.extra.len().max(v1.extra.len())).find(|i| v0.extra.get(*i) != v1.extra.get(*i)).unwrap_or(0);
+                    let cut = v0.extra.len() > 238 && v1.extra[..] == v0.extra[..238];
                     out.fail(
                         Kind::ImplVsSpec,
                         "same-font-raw",
-                        "raw header differs: additional word",
+                        if cut { "header normalised: header words beyond index 255 dropped" } else { "raw header differs: additional word" },
                         format!("word {}: t0 {:?} t1 {:?} (lh {} / {})", 18 + i, v0.extra.get(i), v1.extra.get(i), v0.lh, v1.lh),
                     );
                 }
@@ -1956,7 +2039,9 @@ impl C11 {
                 });
             }
             if h0.additional_data != h1.additional_data {
-                sigs.push("header differs: additional_data");
+                // exactly the recorded loss: words 18..255 kept as they are, words 256.. gone (a HEADER index is one byte)
+                let cut = h0.additional_data.len() > 238 && h1.additional_data[..] == h0.additional_data[..238];
+                sigs.push(if cut { "header normalised: header words beyond index 255 dropped" } else { "header differs: additional_data" });
             }
             sigs.dedup();
             let mut seen: Vec<&str> = vec![];
@@ -2465,6 +2550,49 @@ impl Property for C11 {
         for nv in [255u32, 256] {
             v.push(Shape { nc: 256, nw: 4, nv, seed: 600 + nv as u64, ..base.clone() }.show("gen"));
         }
+        // the size words alone, each at / one below / one above its capacity (TFtoPL.2014.20-21), others minimal
+        {
+            let min: [i64; 11] = [2, 1, 0, 1, 1, 1, 1, 0, 0, 0, 0];
+            let probes: [(usize, &[i64]); 10] = [
+                (0, &[1, 2, 3, 17, 18, 19, 255, 256, 257, 1000]),
+                (3, &[0, 1, 2, 255, 256, 257]),
+                (4, &[0, 1, 15, 16, 17, 256]),
+                (5, &[0, 1, 15, 16, 17, 256]),
+                (6, &[0, 1, 63, 64, 65, 256]),
+                (7, &[1, 255, 256, 257]),
+                (8, &[1, 255, 256, 257]),
+                (9, &[1, 255, 256, 257]),
+                (10, &[1, 7, 253, 254, 255, 256, 1000]),
+                (2, &[0]),
+            ];
+            for (k, vals) in probes {
+                for x in vals {
+                    let mut a = min;
+                    a[k] = *x;
+                    v.push(format!("sz {}", join(&a)));
+                    // the same in a font with all 256 codes in range
+                    a[1] = 0;
+                    a[2] = 255;
+                    if k != 2 {
+                        v.push(format!("sz {}", join(&a)));
+                    }
+                }
+            }
+            for (bc, ec) in [(0i64, 0i64), (255, 255), (0, 255), (1, 255), (0, 254), (128, 127), (256, 255), (2, 0), (0, 256)] {
+                let mut a = min;
+                a[1] = bc;
+                a[2] = ec;
+                v.push(format!("sz {}", join(&a)));
+            }
+            // every capacity at once, and each one above it in turn
+            let full: [i64; 11] = [256, 0, 255, 256, 16, 16, 64, 300, 300, 256, 254];
+            v.push(format!("sz {}", join(&full)));
+            for k in [3usize, 4, 5, 6, 9, 10] {
+                let mut a = full;
+                a[k] += 1;
+                v.push(format!("sz {}", join(&a)));
+            }
+        }
         // everything maximal at once: 256 characters, 255 widths, 15/15/63, 256 recipes, 254 params, lh = 256
         v.push(Shape { nc: 256, nw: 255, nh: 15, nd: 15, ni: 63, nv: 256, np: 254, hx: 238, hdr: 0b0010_0111, seed: 701, ..base.clone() }.show("gen"));
         v.push(Shape { nc: 256, nw: 255, nh: 15, nd: 15, ni: 63, nv: 256, np: 254, hx: 238, hdr: 0b0010_0111, seed: 702, ..base.clone() }.show("raw"));
@@ -2549,6 +2677,28 @@ impl Property for C11 {
                 }
                 // and a program the harness built word by word
                 v.push(format!("tbig {} {} {}", pad + 40 * i as u32, 2 + i, 7 + i));
+            }
+        }
+        {
+            let mut r = rng.fork();
+            let edge = |r: &mut Rng, cap: i64| -> i64 { *r.pick(&[1, 1, 2, cap - 1, cap, cap, cap + 1]) };
+            for i in 0..(if ctx.thorough { 600 } else { 60 }) {
+                let (bc, ec) = *r.pick(&[(0i64, 255i64), (1, 0), (0, 0), (255, 255), (3, 200), (0, 127)]);
+                let big = ctx.thorough && i % 100 == 0;
+                let a: [i64; 11] = [
+                    *r.pick(&[2, 3, 17, 18, 19, 255, 256, 300]),
+                    bc,
+                    ec,
+                    edge(&mut r, 256),
+                    edge(&mut r, 16),
+                    edge(&mut r, 16),
+                    edge(&mut r, 64),
+                    if big { 20_000 } else { *r.pick(&[0, 0, 1, 255, 256, 257]) },
+                    *r.pick(&[0, 0, 1, 255, 256, 257]),
+                    *r.pick(&[0, 0, 1, 255, 256, 256, 257]),
+                    *r.pick(&[0, 1, 7, 253, 254, 255]),
+                ];
+                v.push(format!("sz {}", join(&a)));
             }
         }
         let (n_gen, n_raw, n_pack, n_kerns) = if ctx.thorough { (6000, 3000, 20000, 4000) } else { (400, 200, 1500, 300) };
@@ -2768,6 +2918,20 @@ impl Property for C11 {
                 out.tag("src:corpus-tfm");
                 let t0 = self.read_corpus(rest);
                 self.round_trip(&t0, drv, &mut out);
+            }
+            "sz" => {
+                // `sz lh bc ec nw nh nd ni nl nk ne np`: the smallest file with these size words (all other
+                // words zero, a valid design size): every table at, one below and one above its capacity
+                out.tag("src:sz");
+                let a = parse_i64s(rest);
+                if let Some(t0) = sz_file(&a) {
+                    if a[7] > 2000 {
+                        out.tag("sz:large-lig/kern-sub-file");
+                    }
+                    self.round_trip(&t0, drv, &mut out);
+                } else {
+                    out.tag("sz:not-a-file (lf >= 32768)");
+                }
             }
             "hex" => {
                 out.tag("src:hex");
@@ -3309,6 +3473,27 @@ impl Property for C11 {
                 if ins.chunks(2).any(|x| x[0] > 0) {
                     let i2: Vec<i64> = ins.chunks(2).flat_map(|x| [if x[0] > 0 { 0 } else { x[0] }, x[1]]).collect();
                     c.push(mk(w[0], w[1], &i2, &ent));
+                }
+            }
+            "sz" => {
+                let a = parse_i64s(rest);
+                let min: [i64; 11] = [2, 1, 0, 1, 1, 1, 1, 0, 0, 0, 0];
+                if a.len() == 11 {
+                    if (a[1], a[2]) != (1, 0) {
+                        let mut b = a.clone();
+                        b[1] = 1;
+                        b[2] = 0;
+                        c.push(format!("sz {}", join(&b)));
+                    }
+                    for k in [0usize, 3, 4, 5, 6, 7, 8, 9, 10] {
+                        for x in [min[k], a[k] - 1] {
+                            if x >= min[k] && x < a[k] {
+                                let mut b = a.clone();
+                                b[k] = x;
+                                c.push(format!("sz {}", join(&b)));
+                            }
+                        }
+                    }
                 }
             }
             "tbig" => {
